@@ -73,29 +73,55 @@ def binaryCliqueFormula (G : SimpleG) (k : Int) (symbreak : Bool) : Except Err F
   if k < 0 then .error .valueError
   else .ok (binaryCliqueCore G k.toNat symbreak)
 
-/-- the "local consistency" loop of `RamseyWitnessFormula`; the literal `c` is `C` on an edge, `¬C` on a non-edge -/
-def ramseyEdgeCons (G : SimpleG) (k : Nat) (symbreak : Bool) : List Con :=
+/-- the totality clauses of `RamseyWitnessFormula` (the loop over `m.domain()`): the rows both alternatives
+use (`i ≤ min k s`) must have an image; the remaining rows only under `C` (`k > s`: clause `¬C ∨ row`) or only
+under `¬C` (`k < s`: clause `C ∨ row`) -/
+def ramseyCompleteCons (k s N : Nat) : List Con :=
+  (verts (max k s)).map (fun i =>
+    if i ≤ min k s then Con.clause (mRow 2 N i)
+    else if k > s then Con.clause (-1 :: mRow 2 N i)
+    else Con.clause (1 :: mRow 2 N i))
+
+/-- the selector literal of the "local consistency" loop for the rows `i1 < i2` and a pair of vertices:
+`inclique` (non-edge, `i2 ≤ k`) gives `¬C`, `inindset` (edge, `i2 ≤ s`) gives `C`, otherwise no clause -/
+def ramseyGuard (edge : Bool) (i2 k s : Nat) : Option Int :=
+  if !edge && decide (i2 ≤ k) then some (-1)
+  else if edge && decide (i2 ≤ s) then some 1
+  else none
+
+/-- the clause `[c, -a, -b]` when the selector literal is `some c`, nothing otherwise -/
+def ramseyGuarded (g : Option Int) (a b : Int) : List Con :=
+  match g with
+  | some c => [Con.clause [c, -a, -b]]
+  | none => []
+
+/-- one round of the "local consistency" loop: rows `i.1 < i.2`, vertices `j.1 < j.2`; first the clause of the
+increasing placement, then the one of the decreasing placement (forbidden outright with symmetry breaking) -/
+def ramseyPairCons (G : SimpleG) (k s : Nat) (symbreak : Bool) (i j : Nat × Nat) : List Con :=
   let N := G.n
-  (pairs2 (verts k)).flatMap (fun i => (pairs2 (verts N)).flatMap (fun j =>
-    let c : Int := if adj G j.1 j.2 then 1 else -1
-    [Con.clause [c, -(mlit 2 N i.1 j.1), -(mlit 2 N i.2 j.2)],
-     (if symbreak then Con.clause [-(mlit 2 N i.1 j.2), -(mlit 2 N i.2 j.1)]
-      else Con.clause [c, -(mlit 2 N i.1 j.2), -(mlit 2 N i.2 j.1)])]))
+  let g := ramseyGuard (adj G j.1 j.2) i.2 k s
+  ramseyGuarded g (mlit 2 N i.1 j.1) (mlit 2 N i.2 j.2) ++
+    (if symbreak then [Con.clause [-(mlit 2 N i.1 j.2), -(mlit 2 N i.2 j.1)]]
+     else ramseyGuarded g (mlit 2 N i.1 j.2) (mlit 2 N i.2 j.1))
+
+/-- the "local consistency" loop of `RamseyWitnessFormula` over `max k s` rows -/
+def ramseyEdgeCons (G : SimpleG) (k s : Nat) (symbreak : Bool) : List Con :=
+  (pairs2 (verts (max k s))).flatMap (fun i => (pairs2 (verts G.n)).flatMap (ramseyPairCons G k s symbreak i))
 
 /-- the part of `RamseyWitnessFormula` after the validation.  Variable 1 is `C` ("maybe clique");
-the mapping `s_{i,j}` = `mapId 2 N i j`.  The size `s` of the independent set is NOT a parameter of
-this function: the code overwrites its argument `s` with the mapping (defect D25). -/
-def ramseyWitnessCore (G : SimpleG) (k : Nat) (symbreak : Bool) : Formula :=
+one mapping `s_{i,j}` = `mapId 2 N i j` with `max k s` rows serves both alternatives: under `C` its first
+`k` rows list a clique, under `¬C` its first `s` rows list an independent set (code after the fix of D25). -/
+def ramseyWitnessCore (G : SimpleG) (k s : Nat) (symbreak : Bool) : Formula :=
   let N := G.n
-  { nvars := 1 + k * N
-    cons := forceComplete 2 k N ++ forceFunctional 2 k N ++ forceInjective 2 k N ++
-      ramseyEdgeCons G k symbreak }
+  { nvars := 1 + max k s * N
+    cons := ramseyCompleteCons k s N ++ forceFunctional 2 (max k s) N ++ forceInjective 2 (max k s) N ++
+      ramseyEdgeCons G k s symbreak }
 
-/-- `RamseyWitnessFormula(G, k, s, symbreak)`: `k` and `s` are validated; `s` is then ignored -/
+/-- `RamseyWitnessFormula(G, k, s, symbreak)`: `k` and `s` are validated (`non_negative_int`) -/
 def ramseyWitnessFormula (G : SimpleG) (k s : Int) (symbreak : Bool) : Except Err Formula :=
   if k < 0 then .error .valueError
   else if s < 0 then .error .valueError
-  else .ok (ramseyWitnessCore G k.toNat symbreak)
+  else .ok (ramseyWitnessCore G k.toNat s.toNat symbreak)
 
 end G2
 end Fam
